@@ -217,7 +217,7 @@ class DocumentationAggregator(CMakeListener):
         expect_fail = False
         for i in range(0, len(params)):
             param = params[i]
-            if param.upper() == "NAME":
+            if param == "NAME":
                 try:
                     name = params[i + 1]
                 except IndexError:
@@ -228,7 +228,7 @@ class DocumentationAggregator(CMakeListener):
                         f"ct_add_test() called with incorrect parameters: {params}\n\n{pretty_text}")
                     return
 
-            if param.upper() == "EXPECTFAIL":
+            if param == "EXPECTFAIL":
                 expect_fail = True
 
         test_doc = TestDocumentation(name, docstring, expect_fail)
@@ -257,7 +257,7 @@ class DocumentationAggregator(CMakeListener):
         expect_fail = False
         for i in range(0, len(params)):
             param = params[i]
-            if param.upper() == "NAME":
+            if param == "NAME":
                 try:
                     name = params[i + 1]
                 except IndexError:
@@ -267,7 +267,7 @@ class DocumentationAggregator(CMakeListener):
                     self.logger.error(f"ct_add_section() called with incorrect parameters: {params}\n\n{pretty_text}")
                     return
 
-            if param.upper() == "EXPECTFAIL":
+            if param == "EXPECTFAIL":
                 expect_fail = True
 
         section_doc = SectionDocumentation(name, docstring, expect_fail)
@@ -465,7 +465,7 @@ class DocumentationAggregator(CMakeListener):
         name = ""
         for i in range(0, len(params)):
             param = params[i]
-            if param.upper() == "NAME":
+            if param == "NAME":
                 try:
                     name = params[i + 1]
                 except IndexError:
